@@ -3,7 +3,9 @@
    followed by Qred).  Rationals are exchanged as numerator, denominator.
 
    input (first entry = operation)
-     [1; op; has_coll; ncoll; coll_0..; nc; ns; xd; x_00 .. ]     car(x / xd, collection, operator)
+     [1; op; has_coll; ncoll; coll_0..; nc; ns; xd; x_00 .. ]     car(x / xd, collection, operator); has_coll = 2: x has an
+                                                                  integer dtype (result cast by truncation on scatter)
+     [8; nc; has_shift; has_labels; label_0 ..]                   destripe: trace of (stage code, rows)
      [2; p; q; nw; wd; w_0..; en; ed; nc; ns; xd; x_00 ..]        agc(x / xd, wl, si, epsilon) with wl/si = p/q,
                                                                   normalised window w/wd (nw entries), epsilon = en/ed
      [3; n; label_0 ..]                                           destripe: inside / outside index vectors
@@ -28,6 +30,9 @@ Definition qeqb (a b : Q) : bool := Qeq_bool a b.
 Definition qabs (a : Q) : Q := Qabs a.
 
 Definition qcar := car Q q0 q1 qadd qsub qdiv qleb.
+(* C cast float -> integer: truncation towards zero *)
+Definition qtrunc (a : Q) : Q := inject_Z (Z.quot (Qnum a) (Zpos (Qden a))).
+Definition qcar_int := car_cast Q q0 q1 qadd qsub qdiv qleb qtrunc.
 Definition qagc := agc Q q0 q1 qadd qmul qdiv qeqb qabs.
 
 Definition mkq (n d : Z) : Q := Qred (Qmake n (Z.to_pos d)).
@@ -60,7 +65,8 @@ Definition run (inp : list Z) : list Z :=
       match skipn (Z.to_nat ncoll) r with
       | nc :: ns :: xd :: xs =>
           let x := mat_of nc ns xd xs in
-          match qcar op (if has_coll =? 1 then Some coll else None) x with
+          match (if has_coll =? 2 then qcar_int op (Some coll) x
+                 else qcar op (if has_coll =? 1 then Some coll else None) x) with
           | None => [0]
           | Some y => 1 :: enc_qmat y
           end
@@ -93,6 +99,9 @@ Definition run (inp : list Z) : list Z :=
       enc_list enc_fcall
         (fk_calls {| f_si := si; f_dx := dx; f_vbounds := vb; f_btype := bt; f_ntr_pad := pad;
                      f_ntr_tap := tap; f_lagc := lagc; f_kfilt := kf |} coll)
+  | 8 :: nc :: hs :: hl :: r =>
+      flat_map (fun p => [fst p; snd p])
+        (destripe_trace nc (hs =? 1) (if hl =? 1 then Some (firstn (Z.to_nat nc) r) else None))
   | [7; ver; nc] =>
       snd (adc_params ver) :: enc_list enc_adc (adc_shifts ver nc)
   | _ => [-999]
